@@ -384,6 +384,16 @@ def body(ctx):
                 ctx.count(traces=1)
                 ctx.extra.setdefault('verdicts_of_write_fault_schedules', {}).setdefault(v, 0)
                 ctx.extra['verdicts_of_write_fault_schedules'][v] += 1
+    # an OPEN that did reach the device although its write reported a failure: the next commands must not reuse its id
+    from . import c01 as c01_
+    t4, s4 = c01_.arrived_but_failed_traces(ctx, ['sync', 'async'])
+    v4, r4 = tlc.validate_traces('TraceEnv', t4)
+    ctx.add_tlc(r4, 'TraceEnv over %d sessions in which a write that did arrive reports a timeout' % len(t4))
+    for (i, l, v) in v4:
+        if v.startswith('C14.') or v in ('C04.FreshId', 'C01.NoCrossTalk', 'C01.ExactConcatenation'):
+            ctx.violation(v if v.startswith('C14.') else 'C14.UniqueLiveIds(' + v + ')', dict(kind='session', mode=s4[i][0], spec=s4[i][1], write_reported_failed=s4[i][2], failing_event=l - 1))
+        else:
+            ctx.count(traces=1)
     # ids after failed opens: an operation that times out must not make a later one reuse a live id
     from . import c01
     from .. import scen
